@@ -1061,10 +1061,12 @@ CHECKS = {
                 e1=[e1_smcrun]),
     "C09": dict(corpus=lambda t, s, r: corpus_general(t, s, r, 150 if t == "quick" else 3000), e1=[],
                 extra=lambda v, t, s: __import__("e3_resample").replay(v, t, s)),
-    "C10": dict(corpus=lambda t, s, r: corpus_general(t, s, r) + corpus_calls(t, s, r), e1=[e1_smcrun]),
+    "C10": dict(corpus=lambda t, s, r: corpus_general(t, s, r) + corpus_calls(t, s, r), e1=[e1_smcrun],
+                extra=lambda v, t, s: __import__("e3_initialdraw").replay(v, t, s, "C10")),
     "C11": dict(corpus=corpus_resume, e1=[e1_smcrun]),
     "C12": dict(corpus=corpus_file, e1=[e1_smcrun], extra=e3_blob),
-    "C17": dict(corpus=lambda t, s, r: corpus_general(t, s, r) + corpus_calls(t, s, r), e1=[e1_smcrun]),
+    "C17": dict(corpus=lambda t, s, r: corpus_general(t, s, r) + corpus_calls(t, s, r), e1=[e1_smcrun],
+                extra=lambda v, t, s: __import__("e3_initialdraw").replay(v, t, s, "C17")),
     "C20": dict(corpus=corpus_c20, e1=[], extra=e3_routing),
     "C18": dict(corpus=lambda t, s, r: corpus_general(t, s, r, 200 if t == "quick" else 3000) + [dict(x, id="r" + x["id"]) for x in corpus_resume(t, s, r)][: (150 if t == "quick" else 3000)], e1=[e1_smcrun]),
 }
